@@ -567,7 +567,11 @@ func (vr *variableResolver) resolve(ctx *ExecutionContext) (*Value, error) {
 // slice, func or channel.
 func isNilResult(v reflect.Value) bool {
 	switch v.Kind() {
-	case reflect.Ptr, reflect.Interface, reflect.Map, reflect.Slice, reflect.Func, reflect.Chan:
+	case reflect.Interface:
+		// (also an interface that holds a nil pointer: a function declared (T, error)
+		// that returns a nil *MyError, e.g. one that hands on a (*Value, *Error) result)
+		return v.IsNil() || isNilResult(v.Elem())
+	case reflect.Ptr, reflect.Map, reflect.Slice, reflect.Func, reflect.Chan:
 		return v.IsNil()
 	}
 	return false
